@@ -17,7 +17,8 @@ RULE = (
     "element of degree 1-2, coefficients, several terms/rules) with sum_factorization False vs True - equal within the "
     "propagated bound and each equal to the reference; (b) bilinear forms with identical argument spaces incl. blocked/mixed "
     "spaces and all integral types compiled through the JIT with part='diagonal' - equals the diagonal of the full tensor; "
-    "(c) any form x (table_rtol, table_atol) in {1e-3..1e-14}^2 - each kernel within its own tolerance of the reference; "
+    "(c) any form x (table_rtol, table_atol) in {1e-3..1e-14}^2 - each kernel within its own tolerance of the reference, half of them "
+    "after the same form was compiled with very coarse tolerances in the same process; "
     "(d) options on integrals they do not concern (sum_factorization on facet/simplex integrals, part='diagonal' on rank-0/1 "
     "forms) - bit-identical tensors, an exception counts as an effect. Non-trivial: (a) form has a coefficient or non-affine "
     "geometry; (b) blocked/mixed space or >= 2 terms; (c) tolerance looser than default; (d) always; distinct by spec hash."
@@ -134,9 +135,17 @@ def family_diagonal(spec, wd):
 
 def family_tolerance(case, wd):
     spec, rtol, atol = case
+    warm = int(spec.get("data_seed", 0)) % 2 == 0
+    if warm:
+        # the same form compiled first with very coarse tolerances in this process: the judged compilation below must not inherit them
+        try:
+            formcheck.FormRunner(spec, wd, scalar_type="float64", options={"table_rtol": 1e-2, "table_atol": 5e-2},
+                                 name="warm" + spec_hash(strategies.strip_meta(spec))).compile()
+        except (kernels.Rejected, kernels.CompileError):
+            pass
     o = formcheck.evaluate_form_spec(spec, wd, itypes=ITYPES, scalar_type="float64", options={"table_rtol": rtol, "table_atol": atol}, prop=PROP,
                                      n_inputs=1, nontrivial=lambda s: rtol > 1e-6 or atol > 1e-9)
-    o.classes = ["family:c-tolerances", f"rtol:{rtol:g}", f"atol:{atol:g}"] + o.classes
+    o.classes = ["family:c-tolerances", f"rtol:{rtol:g}", f"atol:{atol:g}"] + (["after-coarse-compile-in-process"] if warm else []) + o.classes
     o.case_id = spec_hash(["c", strategies.strip_meta(spec), rtol, atol])
     if o.status == "violation":
         o.bucket = f"{PROP}:c:tolerance:{spec['cell']}"
